@@ -155,3 +155,36 @@ Definition spec_ping_slot_at (r : region) (hop : Z) : Z :=
 
 Definition spec_ping_slot (r : region) (devaddr beacon_ns : Z) : Z :=
   spec_ping_slot_at r ((devaddr + beacon_ns / beacon_period_ns) mod 8).
+
+(* ---- maximum payload sizes (M, N): only what this development is certain of -----
+   EU863-870 and US902-928 in the released combinations LoRaWAN 1.0.2 rev A/B,
+   1.0.3 rev A, 1.1 rev A/B; [rep] = repeater-compatible column.  Everything else
+   (other regions, RP002 revisions, dwell-time tables) is checked structurally only. *)
+Definition released_combinations : list (string * string) :=
+  [("1.0.2", "A"); ("1.0.2", "B"); ("1.0.3", "A"); ("1.1.0", "A"); ("1.1.0", "B")]%string.
+
+Definition combo_mem (ver rev : string) : bool :=
+  existsb (fun p => String.eqb ver (fst p) && String.eqb rev (snd p)) released_combinations.
+
+Definition with_m (n : Z) : Z * Z := (n + 8, n).
+
+Definition spec_max_payload (r : region) (rep : bool) (ver rev : string) (dr : Z) : option (Z * Z) :=
+  if combo_mem ver rev then
+    match r with
+    | REU868 =>
+      if (0 <=? dr) && (dr <=? 2) then Some (with_m 51)
+      else if dr =? 3 then Some (with_m 115)
+      else if (4 <=? dr) && (dr <=? 7) then Some (with_m (if rep then 222 else 242))
+      else None
+    | RUS915 =>
+      if dr =? 0 then Some (with_m 11)
+      else if dr =? 1 then Some (with_m 53)
+      else if dr =? 2 then Some (with_m 125)
+      else if (dr =? 3) || (dr =? 4) then Some (with_m 242)
+      else if dr =? 8 then Some (with_m (if rep then 33 else 53))
+      else if dr =? 9 then Some (with_m (if rep then 109 else 129))
+      else if (10 <=? dr) && (dr <=? 13) then Some (with_m (if rep then 222 else 242))
+      else None
+    | _ => None
+    end
+  else None.
